@@ -17,8 +17,8 @@ ATMO = atmo_shape(_t0=Real(lo=-90, hi=60), _density_ratio=Real(lo=0), _humidity=
 # (T_K > 0, Z within 1e-3 of 1) is decided by the interval back end (props/C08.py: 'cipm-denominators').
 contract(f'{CF}::Atmo.calculate_air_density', props=(),
          params=dict(t=Real(lo=-90, hi=60), p=Real(lo=150, hi=1100), humidity=Real(lo=0, hi=1)),
-         requires=[('temperature-box', '-90 <= t <= 60'), ('pressure-box', '150 <= p <= 1100'),
-                   ('humidity-fraction', '0 <= humidity <= 1')],
+         # no precondition is imposed on callers and nothing is promised about the value (callers only store it);
+         # its own arithmetic safety on the stated box is the interval obligation 'cipm-denominators'
          modifies=[], modular=True, result_shape=Real())
 
 contract(f'{CF}::Atmo.humidity', which='setter', props=('C08',),
